@@ -711,6 +711,196 @@ def pinpoint(chk, sources, what):
         chk.disagree(what, {"kind": "lex", "dotall": d, "source": s, "parse_template": obs, "stock": stock})
 
 
+# ---------------------------------------------------------------------------------------------
+# the manual patching entry point: monkeypatch_template_cls on hierarchies of Template classes (Lexer/PatchModel.v)
+# ---------------------------------------------------------------------------------------------
+IMPORTS_PATCH = "From DJC Require Import Lib.Base Lexer.Model Lexer.PatchModel."
+PATCH_PROBES = ['x{% firstof "a %} b" %}y', "<p>\n{% a 'q%}' k=\"r\" %}\n{% b \"it's %}\" %}{{ v }}"]
+
+
+def gen_histories_exhaustive(maxlen):
+    """all event lists of length <= maxlen over the classes that exist at each point (class 0 = Template)"""
+    def rec(prefix, n, left):
+        yield list(prefix)
+        if not left:
+            return
+        for p in range(n):
+            for own in (1, 0):
+                yield from rec(prefix + [["new", p, own]], n + 1, left - 1)
+        for c in range(n):
+            yield from rec(prefix + [["patch", c]], n, left - 1)
+    return sorted(rec([], 1, maxlen), key=len)     # shortest first: the first failing history is a minimal one
+
+
+def gen_history_random(rng, lo, hi, allow_patch0=True):
+    h, n = [], 1
+    for _ in range(rng.randint(lo, hi)):
+        if n == 1 or rng.random() < 0.55:
+            h.append(["new", rng.randrange(n), 1 if rng.random() < 0.6 else 0])
+            n += 1
+        else:
+            c = rng.randrange(n)
+            if c == 0 and not allow_patch0:
+                c = n - 1
+            h.append(["patch", c])
+    return h
+
+
+def _norm_stream(o):
+    return (o[0], [tuple(x) for x in o[1]]) if o[0] == "toks" else tuple(o)
+
+
+def _strip_pos(toks):
+    return [(ty, c, ln) for (ty, c, a, b, ln) in toks]
+
+
+def judge_world(chk, history, model_events, obs, probes, refs, where):
+    """obs: per class {'flag', 'streams': [probe][debug on, off]} (c09_util.observe).  Direct oracle for every class that
+    was handed to monkeypatch_template_cls (class 0: by django.setup()); returns the observed (route, flag) per class."""
+    patched_ids = {e[1] for e in model_events if e[0] == "patch"}
+    observed = []
+    for ci, o in enumerate(obs):
+        routes = set()
+        for pi, s in enumerate(probes):
+            pt, stock = refs[pi]
+            for di, debug in enumerate((True, False)):
+                st = _norm_stream(o["streams"][pi][di])
+                if st == pt:
+                    r = 1
+                elif st[0] == "toks" and (st[1] == stock if debug else _strip_pos(st[1]) == _strip_pos(stock)):
+                    r = 0
+                else:
+                    r = None
+                routes.add(r)
+                if ci in patched_ids:
+                    f = None
+                    if st[0] != "toks":
+                        f = ("c09-unexpected-exception", "raised %s" % (st,))
+                    else:
+                        f = local_oracle(s, st[1])
+                        if f is None:
+                            f, _ = oracle(s, st, stock)
+                    if f is None and st != pt:
+                        f = ("c09-compile-path", "differs from parse_template(source)")
+                    if f:
+                        chk.fail("c09-patched-class-route",
+                                 "%s: class %d was handed to monkeypatch_template_cls, yet the token stream it compiles from (engine.debug=%r) "
+                                 "fails [%s] %s; got %s, parse_template gives %s" % (where, ci, debug, f[0], f[1], _short(st), _short(pt)),
+                                 {"kind": "patch-history", "history": history, "class": ci, "source": s, "debug": debug, "where": where})
+        if ci in patched_ids and not o["flag"]:
+            chk.fail("c09-patched-class-route", "%s: is_template_cls_patched is False for class %d after monkeypatch_template_cls" % (where, ci),
+                     {"kind": "patch-history", "history": history, "class": ci, "where": where})
+        route = routes.pop() if len(routes) == 1 else None
+        if route is None:
+            chk.disagree("%s: class %d compiles neither from parse_template's stream nor from stock Django's on every probe" % (where, ci),
+                         {"kind": "patch-history", "history": history, "class": ci, "where": where})
+            route = 9
+        observed.append((route, o["flag"]))
+    return observed
+
+
+def patch_term(model_events, observed):
+    evs = "; ".join("ENew %d %s" % (e[1], "true" if e[2] else "false") if e[0] == "new" else "EPatch %d" % e[1] for e in model_events)
+    return "([%s], [%s])" % (evs, "; ".join("(%d%%N, %s)" % (r, "true" if f else "false") for r, f in observed))
+
+
+def patch_nontrivial(model_events):
+    """the mechanism: a class with its own compile_nodelist is patched while an ancestor already carries the flag"""
+    parent, own, flagged = {0: None}, {0: True}, set()
+    hit = False
+    for e in model_events:
+        if e[0] == "new":
+            parent[len(parent)] = e[1]
+            own[len(own)] = bool(e[2])
+        else:
+            c, a = e[1], parent[e[1]]
+            while a is not None and a not in flagged:
+                a = parent[a]
+            hit = hit or (own[c] and a is not None)
+            flagged.add(c)
+    return hit
+
+
+def patch_check(chk, thorough):
+    """Histories of class creation / monkeypatch_template_cls: in this process (django already set up) exhaustively and at
+    random, and in fresh interpreters with django.setup() in the middle of the history / never."""
+    import c09_util as U
+    from django.template import Template
+    rng = chk.rng
+    set_dotall(bool(_state["ambient_flags"] & re.DOTALL))
+    # probes: sources on which parse_template and stock differ (a quoted %} is kept), so the lexer in use is identifiable
+    pool = list(PATCH_PROBES)
+    for s in gen_structured(rng, 400):
+        if len(pool) >= 14:
+            break
+        obs, stock = run_impl(s)
+        if obs[0] == "toks" and obs[1] != stock and len(s) < 160:
+            pool.append(s)
+    refs_all = {}
+    for s in pool:
+        obs, stock = run_impl(s)
+        if obs[0] != "toks" or obs[1] == stock:
+            raise C.HarnessError("patch_check probe does not separate the two lexers: %r" % s)
+        refs_all[s] = (obs, stock)
+    terms, cases = [], []
+
+    def one(history, idx):
+        probes = PATCH_PROBES[:1] + [pool[1 + idx % (len(pool) - 1)]]
+        classes = [Template]
+        U.apply_events(history, classes)
+        obs = U.observe(classes, probes)
+        model_events = [["patch", 0]] + history          # this process: django.setup() has run
+        observed = judge_world(chk, history, model_events, obs, probes, [refs_all[s] for s in probes], "in-process (after django.setup())")
+        chk.count(("patch-history", tuple(map(tuple, history))), patch_nontrivial(model_events), kind="patch-history")
+        terms.append(patch_term(model_events, observed))
+        cases.append((history, "in-process"))
+    idx = 0
+    for h in gen_histories_exhaustive(5 if thorough else 4):
+        one(h, idx)
+        idx += 1
+    for _ in range(1500 if thorough else 300):
+        one(gen_history_random(rng, 5, 9), idx)
+        idx += 1
+    # fresh interpreters: (a) django.setup() somewhere inside every history, (b) never
+    jobs = []
+    with_setup, without = [], []
+    for h in itertools.islice(gen_histories_exhaustive(3), 0, None):
+        if not any(e == ["patch", 0] for e in h):
+            without.append(h)
+            for k in range(len(h) + 1):
+                with_setup.append(h[:k] + [["setup"]] + h[k:])
+    for _ in range(200 if thorough else 40):
+        h = gen_history_random(rng, 3, 7, allow_patch0=False)
+        k = rng.randint(0, len(h))
+        with_setup.append(h[:k] + [["setup"]] + h[k:])
+        without.append(gen_history_random(rng, 3, 7, allow_patch0=False))
+    sub_probes = PATCH_PROBES
+    for name, hs in (("django.setup() inside the history", with_setup), ("django.setup() never called", without)):
+        rc, out = C.sh([sys.executable, os.path.join(C.VERIF, "harness", "c09_util.py"), json.dumps({"histories": hs, "probes": sub_probes})],
+                       timeout=600)
+        try:
+            res = json.loads(out.strip().split("\n")[-1])
+        except Exception:  # noqa
+            raise C.HarnessError("patch_check subprocess failed (rc=%s):\n%s" % (rc, out[-2000:]))
+        refs = []
+        for r in res["reference"]:
+            pt, stock = _norm_stream(r["parse_template"]), [tuple(x) for x in r["stock"]]
+            if pt[0] != "toks" or pt[1] == stock:
+                raise C.HarnessError("patch_check probe does not separate the two lexers in the subprocess")
+            refs.append((pt, stock))
+        for h, obs in zip(hs, res["worlds"]):
+            model_events = [["patch", 0] if e[0] == "setup" else e for e in h]
+            observed = judge_world(chk, h, model_events, obs, sub_probes, refs, "fresh interpreter, " + name)
+            chk.count(("patch-history-sub", tuple(map(tuple, h))), patch_nontrivial(model_events), kind="patch-history-subprocess")
+            terms.append(patch_term(model_events, observed))
+            cases.append((h, "fresh interpreter, " + name))
+    bad = C.coq_eval_cases("C09", "patch", IMPORTS_PATCH, "list event * list (N * bool)", "check_patch", terms, shard=1000)
+    for i in bad[:20]:
+        h, where = cases[i]
+        chk.disagree("PatchModel (compile route / is_template_cls_patched per class) != implementation, " + where,
+                     {"kind": "patch-history", "history": h, "where": where})
+
+
 def build_codec():
     """Lexer/Codec.v (transport decoding / hashing of the cases) is not in the closure of Props/C09.v: build it after the proofs,
     so that an edit of Lexer/Model.v cannot leave a stale Codec.vo behind."""
@@ -821,6 +1011,8 @@ def run(tier, seed):
     # ---- 4. compile path + apps.ready ----
     compile_check(chk, 3000 if thorough else 600)
     ready_check(chk)
+    # ---- 5. monkeypatch_template_cls on Template subclasses ----
+    patch_check(chk, thorough)
     chk.extra["feature_histogram"] = hist
     chk.assumptions = [
         "Python re semantics of tag_re ({%.*?%}|{{.*?}}|{#.*?#}, with/without DOTALL) and of the take-until patterns ((?:\\\\.|[^q])* per quote, [^'\"%]*) "
@@ -888,6 +1080,37 @@ def replay(path):
         print("oracle:", f)
         set_dotall(bool(_state["ambient_flags"] & re.DOTALL))
         return 1 if f else 0
+    if case.get("kind") == "patch-history":
+        import c09_util as U
+        h = case["history"]
+        if any(e[0] == "setup" for e in h) or "fresh interpreter" in case.get("where", ""):
+            rc_, out = C.sh([sys.executable, os.path.join(C.VERIF, "harness", "c09_util.py"), json.dumps({"histories": [h], "probes": PATCH_PROBES})], timeout=300)
+            res = json.loads(out.strip().split("\n")[-1])
+            obs, probes = res["worlds"][0], PATCH_PROBES
+            refs = [(_norm_stream(r["parse_template"]), [tuple(x) for x in r["stock"]]) for r in res["reference"]]
+            model_events = [["patch", 0] if e[0] == "setup" else e for e in h]
+        else:
+            from django.template import Template
+            set_dotall(True)
+            set_dotall(bool(_state["ambient_flags"] & re.DOTALL))
+            classes = [Template]
+            U.apply_events(h, classes)
+            probes = list(dict.fromkeys(PATCH_PROBES + ([case["source"]] if "source" in case else [])))
+            obs = U.observe(classes, probes)
+            refs = [run_impl(s) for s in probes]
+            model_events = [["patch", 0]] + h
+        patched = sorted({e[1] for e in model_events if e[0] == "patch"})
+        rc = 0
+        for ci, o in enumerate(obs):
+            for pi, s in enumerate(probes):
+                for di, debug in enumerate((True, False)):
+                    st = _norm_stream(o["streams"][pi][di])
+                    same = st == _norm_stream(refs[pi][0])
+                    print("class %d (patched explicitly: %s, is_template_cls_patched: %s) debug=%r source=%r\n   stream: %s\n   == parse_template(source): %s"
+                          % (ci, ci in patched, o["flag"], debug, s, _short(st), same))
+                    if ci in patched and not same:
+                        rc = 1
+        return rc
     if case.get("kind") == "compile-route":
         set_dotall(bool(case.get("dotall", True)))
         s = case["source"]
